@@ -261,6 +261,9 @@ def _check_klatt(case):
                          # layout: Praat ignores white space in front of a line; a file whose body (everything after the three header lines) is
                          # indented by four blanks / by one tab is the same KlattGrid
                          ("UTF-8, every line after the header indented by four blanks", "\n".join(body[:3] + [("    " + ln if ln.strip() else ln) for ln in body[3:]]).encode("utf-8")),
+                         # vertical spacing: an empty line (and a line of blanks) between two sections of the body - Praat skips them
+                         ("UTF-8, an empty line before the headline sections vocalTract? / coupling? / frication? / gain?",
+                          "\n".join(body[:3] + [("\n" + ln if ln.startswith(("vocalTract?", "coupling?", "frication?", "gain?")) else ln) for ln in body[3:]]).encode("utf-8")),
                          ("UTF-8, every line after the header indented by a tab", "\n".join(body[:3] + [("\t" + ln if ln.strip() else ln) for ln in body[3:]]).encode("utf-8"))):
             fn2 = os.path.join(scratch_dir(), "c19-enc.KlattGrid")
             with open(fn2, "wb") as fd:
